@@ -111,6 +111,7 @@ func negCallOf(p *an.Prog, v ssa.Value) *ssa.Call {
 }
 
 func runC01(p *an.Prog, r *an.Run, tier string) {
+	checkSurfaceClosed(p, r)
 	transfer := checkLedgerWriters(p, r)
 	runC01rest(p, r, transfer)
 }
